@@ -6,6 +6,7 @@
 package desync
 
 import (
+	"fmt"
 	"os"
 	"runtime/debug"
 	"sync"
@@ -57,24 +58,56 @@ func verifGoStart(tok uint64) {
 		rt.GoStart(tok)
 	}
 }
-func verifGoEnd(r any) {
+
+// verifPanicHook, when set, receives a panic of a goroutine started by this package outside any simulated runtime
+// (checks that call into the package directly). Without it such a panic takes the whole process down, as it would in
+// production - and with it the worker and every other case it was going to run.
+var (
+	verifPanicMu   sync.Mutex
+	verifPanicHook func(r any, stack []byte)
+)
+
+// VerifSetPanicHook installs (or, with nil, removes) the hook.
+func VerifSetPanicHook(h func(r any, stack []byte)) {
+	verifPanicMu.Lock()
+	verifPanicHook = h
+	verifPanicMu.Unlock()
+}
+
+func verifGoEnd(r any) bool {
 	if rt := verifRT; rt != nil {
 		var st []byte
 		if r != nil {
 			st = debug.Stack()
 		}
 		rt.GoEnd(r, st)
-		return
+		return false
 	}
 	if r != nil {
-		panic(r)
+		verifPanicMu.Lock()
+		h := verifPanicHook
+		verifPanicMu.Unlock()
+		if h == nil {
+			panic(r)
+		}
+		h(r, debug.Stack())
+		return true
 	}
+	return false
 }
 func verifWrapErrFunc(f func() error) func() error {
 	tok := verifPreSpawn()
 	return func() (err error) {
 		verifGoStart(tok)
-		defer func() { verifGoEnd(recover()) }()
+		defer func() {
+			if r := recover(); r != nil {
+				if verifGoEnd(r) {
+					err = fmt.Errorf("panic in worker goroutine: %v", r)
+				}
+				return
+			}
+			verifGoEnd(nil)
+		}()
 		return f()
 	}
 }
